@@ -16,12 +16,12 @@ LEVEL = "fault_enumeration"
 TAIL = 64
 RULE = (
     "case = backend in {sqlite (lazy commit), peewee} x history of 5..60 generated operations (expanded: runs of up to 90 deletes, bulk inserts of 0..130 events "
-    "crossing the 50-statement threshold and peewee's 100-row chunk, upserts, replace, replace_last, bucket create/update/delete, interspersed reads). The crash point "
+    "crossing the 50-statement threshold and peewee's 100-row chunk, upserts, replace, replace_last, bucket create/update/delete, interspersed reads, and operations that are rejected with an exception: deleting a non-existent bucket, bulk insert through the stale handle of a deleted bucket). The crash point "
     "is not sampled: a trace callback on the writer connection observes EVERY SQL statement boundary and every operation return through a second connection (what a "
     "process death would leave). Oracle, purely observational (L_i = writer's view after operation i, D = second connection's view): (1) every D equals some L_j or is "
     "row-wise between L_{j-1} and L_j, with j non-decreasing; (2) sqlite: for single-event and bucket-level operations D is never in between; (3) after a bucket "
     "create/update/delete returns D == L_i; (4) sqlite: after every return the rows changed by not-yet-durable operations number <= 64; (5) peewee: after every return "
-    "D == L_i. Extra phase 'kills': child processes run seeded histories on a disk file and die by SIGKILL / os._exit / exit-without-close at a chosen statement index "
+    "D == L_i; (6) reads and rejected operations leave the writer's view unchanged (no completed write is lost). Extra phase 'kills': child processes run seeded histories on a disk file and die by SIGKILL / os._exit / exit-without-close at a chosen statement index "
     "or (thorough) from a timer; the file reopened with plain sqlite3 must equal the in-process D at that index (timer: be one of the observed D). "
     "Non-trivial = (sqlite) an event write triggers the count-threshold flush at least once and a delete or bucket-level operation happens while writes are pending; (peewee) some multi-statement operation is observed half-done."
 )
@@ -99,6 +99,14 @@ class Oracle:
         self.Ls[i] = L
         self.kinds[i] = kind
         self.diffs[i] = crash.diff_count(self.Ls[i - 1], L)
+        if kind in ("read", "rejected") and self.diffs[i]:
+            raise Violation(
+                f"{be}: operation {i} {json.dumps(op)} ({'a read' if kind == 'read' else 'an operation that was rejected with an exception'}) changed {self.diffs[i]} rows of the "
+                f"writer's own view: effects of earlier completed writes were lost",
+                key="rejected_op_lost_writes",
+            )
+        if kind == "rejected":
+            self.flags["rejected_ops"] = self.flags.get("rejected_ops", 0) + 1
         pending_before = sum(self.diffs.get(k, 0) for k in range(self.rank // 2 + 1, i))
         if pending_before and kind in ("delete", "create_bucket", "update_bucket", "delete_bucket"):
             self.flags["delete_or_bucket_while_pending"] += 1
@@ -168,7 +176,7 @@ def run_case(case):
             r.close()
         env.rm(path)
     f = orc.flags
-    classes = [be] + [k for k in ("threshold_crossed", "delete_or_bucket_while_pending", "between") if f[k]]
+    classes = [be] + [k for k in ("threshold_crossed", "delete_or_bucket_while_pending", "between", "rejected_ops") if f.get(k)]
     if be == "sqlite":
         nt = f["threshold_crossed"] > 0 and f["delete_or_bucket_while_pending"] > 0
     else:  # nothing is ever pending on the auto-committing store: the interesting case is an operation observed half-done
